@@ -46,9 +46,9 @@ func corpusUnions() []*modSpec {
 		mk("union-not-analysed", "package models\n\ntype U1 interface{ is1() }\ntype U2 interface{ is2() }\n\ntype A struct{ X int }\n\nfunc (A) is1() {}\nfunc (A) is2() {}\n\ntype S struct{ V1 U1 }\n", modFile{"other.go", "package models\n\ntype Hidden struct{ V U2 }\n"}),
 		mk("union-through-alias", "package models\n\ntype U interface{ isU() }\n\ntype A struct{ X int }\n\nfunc (A) isU() {}\n\ntype AliasA = A\n\ntype S struct {\n\tDirect A\n\tVia AliasA\n\tV U\n}\n"),
 		mk("union-alias-first", "package models\n\ntype U interface{ isU() }\n\ntype A struct{ X int }\n\nfunc (A) isU() {}\n\ntype AliasA = A\n\ntype S struct {\n\tVia AliasA\n\tDirect A\n\tV U\n}\n"),
-		mk("union-same-local-name", "package models\n\nimport (\n\t\"example.com/org/models/shapes\"\n\t\"example.com/org/models/ui\"\n)\n\ntype Circle struct{ Local bool }\n\ntype App struct {\n\tS shapes.Shape\n\tW ui.Circle\n\tL Circle\n\tC shapes.Circle\n}\n",
+		withClass(mk("union-same-local-name", "package models\n\nimport (\n\t\"example.com/org/models/shapes\"\n\t\"example.com/org/models/ui\"\n)\n\ntype Circle struct{ Local bool }\n\ntype App struct {\n\tS shapes.Shape\n\tW ui.Circle\n\tL Circle\n\tC shapes.Circle\n}\n",
 			modFile{"shapes/shapes.go", "package shapes\n\ntype Shape interface{ isShape() }\n\ntype Circle struct{ R int }\ntype Square struct{ S int }\n\nfunc (Circle) isShape() {}\nfunc (Square) isShape() {}\n"},
-			modFile{"ui/ui.go", "package ui\n\ntype Circle struct{ Label string }\n\ntype Square int\n"}),
+			modFile{"ui/ui.go", "package ui\n\ntype Circle struct{ Label string }\n\ntype Square int\n"}), "dart-same-class-name-in-two-packages"),
 		mk("union-empty-interface-named", "package models\n\ntype Any interface{}\n\ntype A struct{ X int }\ntype N int\n\ntype S struct{ V Any }\n"),
 		mk("union-foreign-implementer", "package models\n\nimport \"example.com/org/models/sub\"\n\ntype U interface{ IsU() }\n\ntype A struct{ X int }\n\nfunc (A) IsU() {}\n\ntype S struct {\n\tV U\n\tF sub.F\n}\n",
 			modFile{"sub/sub.go", "package sub\n\ntype F struct{ Z int }\n\nfunc (F) IsU() {}\n"}),
